@@ -19,7 +19,31 @@ theorem C07_chain (env : Env) (ss child : Sealed) (basis u : State) (txs : List 
     chdr.height = phdr.height + 1 ∧ chdr.previous = env.hdrHash phdr ∧ chdr.network = phdr.network ∧
     child.st.history.get ss.st.height = some phdr ∧
     (∀ h, h ≠ ss.st.height → child.st.history.get h = ss.st.history.get h) := by
-  sorry
+  obtain ⟨hdr, hh, bhist, bht, bnet⟩ := nextUnsealed_ok env ss basis h1
+  rw [hp] at hh
+  cases hh
+  have hc : SameHHN basis child.st := (applyBatch_hhn _ _ _ _ _ h2).trans (sealState_hhn _ _ _ _ h3)
+  obtain ⟨chist, cht, cnet⟩ := hc
+  have chist' : child.st.history = ss.st.history.set ss.st.height phdr := chist.trans bhist
+  have cht' : child.st.height = ss.st.height + 1 := cht.trans bht
+  have cnet' : child.st.network = ss.st.network := cnet.trans bnet
+  obtain ⟨pp, _, hpe⟩ := headerOf_ok env ss phdr hp
+  obtain ⟨cp, hcp, hce⟩ := headerOf_ok env child chdr h4
+  have hph : phdr.height = ss.st.height := by rw [hpe]
+  have hpn : phdr.network = ss.st.network := by rw [hpe]
+  have hget : child.st.history.get ss.st.height = some phdr := by
+    rw [chist']; exact AList.get_set_self _ _ _
+  refine ⟨?_, ?_, ?_, hget, ?_⟩
+  · rw [hce, hph]; exact cht'
+  · rcases hcp with ⟨h0, _⟩ | ⟨_, ph, hg, hcpe⟩
+    · omega
+    · have : child.st.height - 1 = ss.st.height := by omega
+      rw [this, hget] at hg
+      cases hg
+      rw [hce]; exact hcpe
+  · rw [hce, hpn]; exact cnet'
+  · intro h hne
+    rw [chist']; exact AList.get_set_ne _ _ hne
 
 /-- the root functions of the environment are injective (collision-free hashing) -/
 structure RootsInjective (env : Env) : Prop where
@@ -38,13 +62,35 @@ theorem C07_sensitive (env : Env) (hi : RootsInjective env) (s₁ s₂ : Sealed)
     s₁.st.history = s₂.st.history ∧ s₁.st.feePool = s₂.st.feePool ∧
     s₁.st.feeMultiplier = s₂.st.feeMultiplier ∧ s₁.st.doscSpeed = s₂.st.doscSpeed ∧
     s₁.st.height = s₂.st.height ∧ s₁.st.network = s₂.st.network := by
-  sorry
+  obtain ⟨p₁, _, e₁⟩ := headerOf_ok env s₁ h h₁
+  obtain ⟨p₂, _, e₂⟩ := headerOf_ok env s₂ h h₂
+  rw [e₁] at e₂
+  simp only [Header.mk.injEq] at e₂
+  obtain ⟨hn, _, hh, hhist, hcoins, htxs, hfp, hfm, hds, hpools, hstakes⟩ := e₂
+  rw [ht] at htxs
+  have hc := hi.coins _ _ hcoins
+  exact ⟨hc.1, hc.2, hi.pools _ _ hpools, hi.stakes _ _ hstakes, hi.txs _ _ _ htxs,
+    hi.history _ _ hhist, hfp, hfm, hds, hh, hn⟩
 
 /-- any difference in fee pool, fee multiplier or DOSC speed changes the header -/
 theorem C07_scalar_change (env : Env) (s₁ s₂ : Sealed) (h₁ h₂ : Header)
     (e₁ : headerOf env s₁ = .ok h₁) (e₂ : headerOf env s₂ = .ok h₂)
     (hd : s₁.st.feePool ≠ s₂.st.feePool ∨ s₁.st.feeMultiplier ≠ s₂.st.feeMultiplier ∨ s₁.st.doscSpeed ≠ s₂.st.doscSpeed) :
     h₁ ≠ h₂ := by
-  sorry
+  intro he
+  subst he
+  obtain ⟨p₁, _, x₁⟩ := headerOf_ok env s₁ h₁ e₁
+  obtain ⟨p₂, _, x₂⟩ := headerOf_ok env s₂ h₁ e₂
+  rw [x₁] at x₂
+  simp only [Header.mk.injEq] at x₂
+  obtain ⟨_, _, _, _, _, _, hfp, hfm, hds, _, _⟩ := x₂
+  rcases hd with hd | hd | hd
+  · exact hd hfp
+  · exact hd hfm
+  · exact hd hds
 
 end Mel
+
+#print axioms Mel.C07_chain
+#print axioms Mel.C07_sensitive
+#print axioms Mel.C07_scalar_change
